@@ -46,6 +46,7 @@ type vfPairCfg struct {
 	Wire                    bool // decode every datagram with the independent decoder (C09) and check sizes (C10)
 	EncBack                 int  // white-box: the client's FEC encoder starts this many groups before its wrap value (reachable after ~2^32 packets)
 	Dup                     int  // SetDUP(n) on both sessions (duplicate datagrams; exercises the transmit queue's buffer ownership)
+	UnlockPoints            bool // extra scheduling point after every Mutex.Unlock (code that touches guarded state after releasing the lock)
 	Batch                   int  // 1 = the Linux batch read/transmit paths on a virtual batch connection, 2 = also short sendmmsg counts
 	GapAfter                int  // the client writer idles GapMs after this many writes (0 = never)
 	GapMs                   int
@@ -571,7 +572,7 @@ func vfPairRun(cfg vfPairCfg, bound int, body func(p *vfPair)) explore.RunFunc {
 			hz = 120
 		}
 		out := hx.RunVrt(e, vrt.Config{PreemptCost: cfg.Preempt, SwitchCost: cfg.Switch, SelectCost: cfg.Select, TimerEarlyCost: -1,
-			Horizon: time.Duration(hz) * time.Second, MaxSteps: 3000000}, func() {
+			Horizon: time.Duration(hz) * time.Second, MaxSteps: 3000000, UnlockPoints: cfg.UnlockPoints}, func() {
 			p = vfPairSetup(cfg)
 			body(p)
 		})
